@@ -60,17 +60,6 @@ Definition apk_fields (r : apk_rec) (y : apk_rlay) : list (bytes * bytes) :=
 
 Definition field_line (kv : bytes * bytes) : bytes := fst kv ++ COLON :: snd kv.
 
-Fixpoint with_eols (ls : list bytes) (es : list eol) : list (bytes * eol) :=
-  match ls with
-  | [] => []
-  | l :: r => match es with
-              | [] => (l, LF) :: with_eols r []
-              | e :: es' => (l, e) :: with_eols r es'
-              end
-  end.
-
-Definition blank_lines (es : list eol) : list (bytes * eol) := map (fun e => ([], e)) es.
-
 Definition apk_rec_lines (r : apk_rec) (y : apk_rlay) : list (bytes * eol) :=
   with_eols (map field_line (apk_fields r y)) (al_eols y).
 
